@@ -11,7 +11,9 @@
       it received — with its verdict, its fund / release calls and its locked outputs;
     - [PairCase]: both over a stream that is cut at one of the four messages (no
       rewriting), checked against the composed run [attempt].
-    All cases are checked against the repaired model ([fixed = true]). *)
+    All cases are checked against the repaired model ([fixed = true]).  Verdicts and resulting
+    states are compared exactly; the call trace of a failed attempt only up to the stage at
+    which the request was refused (see [check_host]). *)
 From stdpp Require Import gmap.
 From Coq Require Import ZArith NArith List.
 From CV Require Export RHP.Form.
@@ -71,8 +73,14 @@ Fixpoint list_eqb {A} (eqb : A → A → bool) (l1 l2 : list A) : bool :=
 
 Definition nlocked (w : wallet) : Z := Z.of_nat (size (w_locked w)).
 
-Definition check_host (o : hout) (ok : bool) (calls : list hcall) (dlock : Z) (recorded : bool) : bool :=
-  Bool.eqb (ho_ok o) ok && list_eqb hcall_eqb (ho_calls o) calls
+(** The verdict and the state left behind are compared exactly.  The call trace is compared
+    exactly for committed runs; for a failed attempt the property does not fix the stage at
+    which the request is refused, so an observed trace that differs from the model's is
+    accepted when it is [admissible_failure] (ordered like the handler, stops at the first
+    failing call, nothing recorded / pooled / broadcast, exactly the funded inputs released). *)
+Definition check_host (k : kind) (o : hout) (ok : bool) (calls : list hcall) (dlock : Z) (recorded : bool) : bool :=
+  Bool.eqb (ho_ok o) ok
+  && (list_eqb hcall_eqb (ho_calls o) calls || (negb ok && admissible_failure k calls))
   && Z.eqb (nlocked (h_wallet (ho_host o))) dlock
   && Bool.eqb (Nat.eqb (length (h_contracts (ho_host o))) 1) recorded
   (* recorded, pool-accepted and broadcast go together *)
@@ -88,7 +96,7 @@ Definition check_case (c : case) : bool :=
   | HostCase k e hw m1 m2 ok calls dlock recorded rbasis =>
       let h := mk_host host_key (wallet_of hw) [] [] [] in
       let o := host_run true (kind_of k) e h m1 m2 in
-      check_host o ok calls dlock recorded
+      check_host (kind_of k) o ok calls dlock recorded
       && match sent_final (ho_sent o), rbasis with
          | Some f, Some b => N.eqb (f_basis f) b
          | None, None => true
@@ -101,7 +109,7 @@ Definition check_case (c : case) : bool :=
       let h := mk_host host_key (wallet_of hw) [] [] [] in
       let r := mk_renter renter_key (wallet_of rw) [] in
       let a := attempt true (kind_of k) e re sc h r t in
-      check_host (ao_host a) hok hcalls hdlock recorded
+      check_host (kind_of k) (ao_host a) hok hcalls hdlock recorded
       && check_renter (ao_renter a) rok rcalls rdlock
   end.
 
